@@ -30,7 +30,8 @@ META = {
              'non-trivial = a handler that fails or raises, or >= 2 requests in flight (e2e); at least one part delivered '
              'before the response (opmgr); distinct by case'),
     'exhaustive_parts': ['opmgr'],
-    'assumptions': ['at most 10 requests are queued between two drains (the worker queue holds 10)'],
+    'assumptions': ['a request that arrives while the worker queue (10 entries) is full may be refused with a fault; a request '
+                    'that is answered with an InvocationInfo must reach a final state'],
 }
 
 FIXTURE = 'mdib_two_mds.xml'
@@ -44,7 +45,13 @@ def st_history():
     call = st.tuples(st.just('call'), st.integers(0, 1), st.integers(0, 20),
                      st.sampled_from(['Fin', 'Fin', 'FinMod', 'Fail', 'raise', 'raise_bare']),
                      st.sampled_from(['direct', 'queued'])).map(list)
-    step = st.one_of(call, call, call, st.just(['drain']), st.tuples(st.just('call_unknown'), st.integers(0, 1)).map(list))
+    # burst: n queued calls in a row - more than the worker queue (10) holds when nothing drains it in between
+    burst = st.tuples(st.just('burst'), st.integers(0, 1), st.integers(0, 20), st.integers(9, 12)).map(list)
+    step = st.one_of(call, call, call, call, call, call, st.just(['drain']), st.just(['drain']),
+                     st.tuples(st.just('call_unknown'), st.integers(0, 1)).map(list),
+                     st.tuples(st.just('call_unknown'), st.integers(0, 1)).map(list), burst,
+                     # the application withdraws an operation (its descriptor stays in the MDIB)
+                     st.tuples(st.just('unregister'), st.integers(0, 20)).map(list))
     return st.lists(step, min_size=1, max_size=14)
 
 
@@ -58,17 +65,22 @@ class E2E:
         self.world.inline_sco()
         self.consumers = [self.world.add_consumer(init_mdib=True) for _ in range(n_consumers)]
         self.ops = []
+        self.registry_of = {}
+        self.unregistered = set()
         for reg in self.world.provider._sco_operations_registries.values():  # noqa: SLF001
             for handle, op in sorted(reg._registered_operations.items()):  # noqa: SLF001
                 kind = type(op).__name__
                 if kind in ('SetStringOperation', 'SetValueOperation', 'ActivateOperation', 'SetContextStateOperation'):
                     self.ops.append((handle, kind, op))
+                    self.registry_of[handle] = reg
         self.by_message_id = {}
         self.direct_behaviour = 'Fin'
         self.calls = []  # dict(tx, consumer, expect, mode, future, response_state)
         self.pending = 0
         self.findings = []
         self.max_in_flight = 0
+        self.bursts = 0
+        self.refused = 0
 
     def close(self):
         self.world.close()
@@ -110,12 +122,24 @@ class E2E:
             self.world.run_sco()
             self.pending = 0
             return
+        if step[0] in ('unregister', 'register'):
+            handle, _kind, op = self.ops[step[1] % len(self.ops)]
+            if step[0] == 'unregister' and handle not in self.unregistered and self.pending == 0:
+                self.registry_of[handle].unregister_operation_by_handle(handle)
+                self.unregistered.add(handle)
+            return
+        if step[0] == 'call' and self.ops[step[2] % len(self.ops)][0] in self.unregistered:
+            handle, kind, _op = self.ops[step[2] % len(self.ops)]
+            step = ['call_unknown', step[1], handle, kind]
         if step[0] == 'call_unknown':
             consumer, _ = self.consumers[step[1] % len(self.consumers)]
             before = C.canon_mdib(self.world.mdib)
             log0 = len(L.NET.log)
             try:
-                fut = consumer.client('Set').set_string('vf_no_such_operation', 'x')
+                if len(step) > 2:  # an operation that is in the MDIB but not (any longer) offered by the application
+                    fut = self._invoke(consumer, step[2], step[3])
+                else:
+                    fut = consumer.client('Set').set_string('vf_no_such_operation', 'x')
             except Exception as ex:  # noqa: BLE001
                 if not R.exc_in_library(ex):
                     raise
@@ -124,7 +148,8 @@ class E2E:
             res = fut.result(timeout=2) if fut.done() else None
             state = None if res is None else res.InvocationInfo.InvocationState.value
             if state != 'Fail':
-                self.findings.append((f'{P}/unknown-operation-not-failed', f'response state {state}'))
+                self.findings.append((f'{P}/unknown-operation-not-failed',
+                                      f'response state {state}' + (f' for the unregistered operation {step[2]}' if len(step) > 2 else '')))
             if C.diff_mdib(before, C.canon_mdib(self.world.mdib)):
                 self.findings.append((f'{P}/unknown-operation-changed-mdib', 'MDIB changed'))
             reports = [e for e in L.NET.log[log0:] if e.action and e.action.endswith('OperationInvokedReport')]
@@ -133,8 +158,15 @@ class E2E:
             if res is not None:
                 self.calls.append({'tx': res.InvocationInfo.TransactionId, 'unknown': True})
             return
+        if step[0] == 'burst':
+            if self.bursts >= 1:  # (every refused request costs the provider's 1 s queue timeout in real time)
+                return
+            self.bursts += 1
+            for _ in range(step[3]):
+                self.step(['call', step[1], step[2], 'Fin', 'queued'])
+            return
         _, ci, oi, behaviour, mode = step
-        if mode == 'queued' and self.pending >= 10:
+        if mode == 'queued' and self.pending >= 12:
             return
         consumer, _ = self.consumers[ci % len(self.consumers)]
         handle, kind, op = self.ops[oi % len(self.ops)]
@@ -145,6 +177,10 @@ class E2E:
         except Exception as ex:  # noqa: BLE001
             if not R.exc_in_library(ex):
                 raise
+            if mode == 'queued' and self.pending >= 10:
+                # the worker queue is full: the provider refuses the request with a fault, i.e. it does not accept it
+                self.refused += 1
+                return
             self.findings.append((f'{P}/call-raises/{kind}/{R.exc_sig(ex)}', f'{step}: {str(ex)[:300]}'))
             return
         if mode == 'queued':
@@ -238,7 +274,8 @@ def e2e_case(ctx, hist):
         r.close()
     nontrivial = any(s[0] == 'call' and s[3] in ('Fail', 'raise', 'raise_bare') for s in hist) or r.max_in_flight >= 2
     ctx.case(hist, nontrivial, 'e2e', classes=tuple({f'{s[3]}/{s[4]}' for s in hist if s[0] == 'call'}) + (
-        ('in-flight>=2',) if r.max_in_flight >= 2 else ()))
+        ('in-flight>=2',) if r.max_in_flight >= 2 else ()) + (('queue-overflow',) if r.refused else ()) + (
+        ('in-flight>10-accepted',) if r.max_in_flight > 10 else ()))
     return findings
 
 
